@@ -101,7 +101,7 @@ CLAIMED = {
             'Static assert-only / rejecting-gate rules (assert is compiled out of the release binary): the difference-logic atom intake tests every shape requirement on '
             'a throwing non-assert branch and records the atom only after acceptance; the upstream isValid gates exist; constants are converted exactly with a rejecting '
             'range test; the arithmetic constructors reject non-linear products and bad divisors by throwing; the logic tables and createTheory cover every Logic_t '
-            'enumerator; polymorphic constructors check operand sorts. Decides that the gates exist and reject, not that accepted input is answered correctly.',
+            'enumerator; the logic-name reader, the property records and every table subscripted with a Logic_t value name the same logic per enumerator (sibling-table agreement); polymorphic constructors check operand sorts. Decides that the gates exist and reject, not that accepted input is answered correctly.',
             'static analysis: ASSERT-ONLY / rejecting-branch rule, exhaustiveness and table-agreement rules over the type-checked AST (assert expansions tagged, -UNDEBUG)', ''),
     'C23': ('other',
             'Static absence-of-source rules over all built units: no scalar member read while never written anywhere in the program (whole-program write set), no iteration over '
